@@ -973,10 +973,59 @@ def unroll(fn: ast.FunctionDef, repo: Optional[Repo] = None, ci: Optional[ClassI
                            and isinstance(st0.targets[0], ast.Name) and stores.get(st0.targets[0].id) == 1
                            and isinstance(st0.value, ast.Call) and norm(st0.value.func) in ("unpack", "struct.unpack")}
 
+    # locals bound exactly once to a call (`cells = product(...)`) and read exactly once: the call is read at its use
+    loads: Dict[str, int] = {}
+    for n0 in ast.walk(new):
+        if isinstance(n0, ast.Name) and isinstance(n0.ctx, ast.Load):
+            loads[n0.id] = loads.get(n0.id, 0) + 1
+    once_calls: Dict[str, ast.Call] = {st0.targets[0].id: st0.value for st0 in ast.walk(new) if isinstance(st0, ast.Assign) and len(st0.targets) == 1
+                                       and isinstance(st0.targets[0], ast.Name) and stores.get(st0.targets[0].id) == 1
+                                       and loads.get(st0.targets[0].id) == 1 and isinstance(st0.value, ast.Call)}
+
+    consumed: Set[str] = set()
+
     def block(stmts: List[ast.stmt], env: Dict[str, List[ast.expr]]) -> List[ast.stmt]:
         env = dict(env)
         out: List[ast.stmt] = []
         for st in stmts:
+            # --- for (a, b) in product(X, Y)   /   for i, (a, b) in enumerate(product(range(A), range(B)))   read as nested loops
+            if isinstance(st, ast.For) and not st.orelse:
+                it0 = st.iter
+                via = []
+                if isinstance(it0, ast.Name) and it0.id in once_calls:
+                    via.append(it0.id)
+                    it0 = once_calls[it0.id]
+                idx = None
+                tgt = st.target
+                if isinstance(it0, ast.Call) and norm(it0.func) == "enumerate" and len(it0.args) == 1 and not it0.keywords \
+                        and isinstance(tgt, ast.Tuple) and len(tgt.elts) == 2 and isinstance(tgt.elts[0], ast.Name):
+                    inner0 = it0.args[0]
+                    if isinstance(inner0, ast.Name) and inner0.id in once_calls:
+                        via.append(inner0.id)
+                        inner0 = once_calls[inner0.id]
+                    if isinstance(inner0, ast.Call) and norm(inner0.func).split(".")[-1] == "product":
+                        idx, tgt, it0 = tgt.elts[0], tgt.elts[1], inner0
+                if isinstance(it0, ast.Call) and norm(it0.func).split(".")[-1] == "product" and len(it0.args) == 2 and not it0.keywords \
+                        and isinstance(tgt, ast.Tuple) and len(tgt.elts) == 2 and all(isinstance(t, ast.Name) for t in tgt.elts) \
+                        and not any(isinstance(n, (ast.Break, ast.Continue)) for b in st.body for n in ast.walk(b)):
+                    X_, Y_ = it0.args
+                    body = list(st.body)
+                    ok = True
+                    if idx is not None:
+                        if isinstance(Y_, ast.Call) and norm(Y_.func) == "range" and len(Y_.args) == 1 and isinstance(X_, ast.Call) \
+                                and norm(X_.func) == "range" and len(X_.args) == 1:
+                            pos_e = ast.BinOp(left=ast.BinOp(left=ast.Name(id=tgt.elts[0].id, ctx=ast.Load()), op=ast.Mult(), right=copy.deepcopy(Y_.args[0])),
+                                              op=ast.Add(), right=ast.Name(id=tgt.elts[1].id, ctx=ast.Load()))
+                            body = [ast.copy_location(ast.Assign(targets=[ast.Name(id=idx.id, ctx=ast.Store())], value=pos_e), st)] + body
+                        else:
+                            ok = False
+                    if ok:
+                        inner_loop = ast.copy_location(ast.For(target=tgt.elts[1], iter=Y_, body=body, orelse=[]), st)
+                        outer_loop = ast.copy_location(ast.For(target=tgt.elts[0], iter=X_, body=[inner_loop], orelse=[]), st)
+                        ast.fix_missing_locations(outer_loop)
+                        consumed.update(via)
+                        out.extend(block([outer_loop], env))
+                        continue
             # --- for x in (A if c else ()): BODY   reads as   if c: for x in A: BODY
             if isinstance(st, ast.For) and not st.orelse and isinstance(st.iter, ast.IfExp):
                 def empty(x):
@@ -1101,6 +1150,15 @@ def unroll(fn: ast.FunctionDef, repo: Optional[Repo] = None, ci: Optional[ClassI
         return out
 
     new.body = block(new.body, {}) or [ast.Pass()]
+    if consumed:
+        class Drop(ast.NodeTransformer):
+            def visit_Assign(self, node):
+                if len(node.targets) == 1 and isinstance(node.targets[0], ast.Name) and node.targets[0].id in consumed:
+                    return None
+                return node
+        Drop().visit(new)
+        if not new.body:
+            new.body = [ast.Pass()]
     ast.fix_missing_locations(new)
     number(new)
     return new
@@ -1132,8 +1190,10 @@ def expand_aliases(fn: ast.FunctionDef) -> ast.FunctionDef:
         if isinstance(st, ast.Assign) and len(st.targets) == 2:
             names = [t for t in st.targets if isinstance(t, ast.Name)]
             attrs = [t for t in st.targets if isinstance(t, ast.Attribute)]
+            later_stores = [n for n in ast.walk(new) if isinstance(n, ast.Attribute) and isinstance(n.ctx, ast.Store)
+                            and norm(n) == norm(attrs[0]) and pos(n) > getattr(st, "_seq_end", pos(st))] if attrs else []
             if len(names) == 1 and len(attrs) == 1 and cnt.get(names[0].id) == 1 and names[0].id not in banned \
-                    and chain_stores.get(norm(attrs[0])) == 1 and norm(attrs[0]).startswith("self."):
+                    and not later_stores and norm(attrs[0]).startswith("self."):
                 alias[names[0].id] = ast.Attribute(value=attrs[0].value, attr=attrs[0].attr, ctx=ast.Load())
                 st.targets = attrs
             continue
@@ -1174,7 +1234,8 @@ def normalize(repo: Repo, ci: Optional[ClassInfo], fn: ast.FunctionDef, sf: Opti
         if changed:
             out = unroll(out, repo, ci, sf)      # `fields = self._FIELDS; for f in fields` now iterates the constant itself
     if any(isinstance(n, ast.Assign) and len(n.targets) == 1 and isinstance(n.targets[0], (ast.Tuple, ast.List))
-           and isinstance(n.value, (ast.Tuple, ast.List)) for n in ast.walk(out)):
+           and (isinstance(n.value, (ast.Tuple, ast.List)) or (isinstance(n.value, ast.Call) and norm(n.value.func) == "divmod"))
+           for n in ast.walk(out)):
         out = split_tuple_assigns(out)
     if any(isinstance(n, ast.Attribute) and n.attr in ("pack", "unpack", "unpack_from", "size") for n in ast.walk(out)) or \
             any(isinstance(n, ast.Call) and isinstance(n.func, (ast.Name, ast.Subscript)) for n in ast.walk(out)):
@@ -1608,12 +1669,53 @@ def split_tuple_assigns(fn: ast.FunctionDef) -> ast.FunctionDef:
                             setattr(a, k, val)
                     out.append(a)
                 return out
+            # q, r = divmod(x, k)   reads as   q = x // k; r = x % k      (x a plain name or attribute: evaluated twice is the same)
+            if len(node.targets) == 1 and isinstance(node.targets[0], (ast.Tuple, ast.List)) and len(node.targets[0].elts) == 2 \
+                    and isinstance(node.value, ast.Call) and norm(node.value.func) == "divmod" and len(node.value.args) == 2 \
+                    and all(isinstance(a, (ast.Name, ast.Attribute, ast.Constant)) for a in node.value.args) \
+                    and not ({norm(t) for t in node.targets[0].elts} & {norm(a) for a in node.value.args}):
+                x, k = node.value.args
+                q = ast.copy_location(ast.Assign(targets=[node.targets[0].elts[0]], value=ast.BinOp(left=copy.deepcopy(x), op=ast.FloorDiv(), right=copy.deepcopy(k))), node)
+                r = ast.copy_location(ast.Assign(targets=[node.targets[0].elts[1]], value=ast.BinOp(left=copy.deepcopy(x), op=ast.Mod(), right=copy.deepcopy(k))), node)
+                return [q, r]
             return node
 
         def visit_Lambda(self, node):
             return node
     new = copy.deepcopy(fn)
     X().visit(new)
+    ast.fix_missing_locations(new)
+    number(new)
+    return new
+
+
+def fold_module_names(repo: Repo, sf: SourceFile, fn: ast.FunctionDef, ci: Optional[ClassInfo] = None) -> ast.FunctionDef:
+    """Free names (and `self.X` / `Class.X` class constants) that fold to an int / str / bytes constant are written as that constant."""
+    new = copy.deepcopy(fn)
+    bound = {a.arg for a in new.args.args + new.args.kwonlyargs} | {n.id for n in ast.walk(new) if isinstance(n, ast.Name) and isinstance(n.ctx, (ast.Store, ast.Del))}
+
+    class K(ast.NodeTransformer):
+        def visit_Name(self, node):
+            if isinstance(node.ctx, ast.Load) and node.id not in bound:
+                try:
+                    v = repo.fold(node, ci=ci, sf=sf)
+                    if isinstance(v, (int, str, bytes)) and not isinstance(v, bool):
+                        return ast.copy_location(ast.Constant(value=v), node)
+                except Exception:
+                    pass
+            return node
+
+        def visit_Attribute(self, node):
+            node = self.generic_visit(node)
+            if isinstance(node.ctx, ast.Load) and isinstance(node.value, ast.Name) and ci is not None:
+                try:
+                    v = repo.fold(node, ci=ci, sf=sf)
+                    if isinstance(v, (int, str, bytes)) and not isinstance(v, bool):
+                        return ast.copy_location(ast.Constant(value=v), node)
+                except Exception:
+                    pass
+            return node
+    new = K().visit(new)
     ast.fix_missing_locations(new)
     number(new)
     return new
